@@ -615,3 +615,6 @@ mod test {
         );
     }
 }
+
+#[cfg(kani)]
+pub(crate) mod verif_kani;
